@@ -5,7 +5,7 @@
    recursion skeleton of the parsers' dangerous spots, with outcome Done | Fail | Panic, following
    the code after this property's fix: commits.  "Never Panic" for the class reader as a whole is
    NOT claimed (see stated_not_proved in props/c16.py); the harness covers it by search. *)
-From FB Require Import C16.Model C16.Theory C16.Theory2 C16.Theory3 C18.Model.
+From FB Require Import C16.Model C16.ModelText C16.ModelEv C16.SitesGen C16.Theory C16.Theory2 C16.Theory3 C16.TheoryText C16.TheoryText2 C16.TheoryRD C16.TheoryEv C16.TheorySites C18.Model.
 
 (* Labels: a local-variable range is computed without overflow ... *)
 Theorem C16_no_panic_label_range : forall code_len start len, get_or_create_range code_len start len <> Panic.
@@ -158,3 +158,196 @@ Print Assumptions C16_unrepaired_code_panics.
 Theorem C16_unrepaired_scan_panics : scan_unrepaired_witnesses.
 Proof. exact scan_unrepaired_witnesses_hold. Qed.
 Print Assumptions C16_unrepaired_scan_panics.
+
+(* ------------------------------------------------------------------------------------------ *)
+(* WHOLE text parsers (coq/C16/ModelText.v): strings are UTF-8 byte lists, slicing off a char
+   boundary / past the end, from_str_radix with a bad radix and more than 68 frames of nested
+   loops are Panic; the std functions listed at the top of ModelText.v are assumed total.       *)
+
+(* tiny_v2::read::<n, _> on every byte string, every n *)
+Theorem C16_no_panic_tiny_v2 : forall n input, tiny_v2_out n input <> Panic.
+Proof. exact tiny_v2_no_panic. Qed.
+Print Assumptions C16_no_panic_tiny_v2.
+
+(* ... and the reader relies on nothing about unescape but its totality *)
+Theorem C16_no_panic_tiny_v2_for_total_unescape : forall unesc n input,
+  (forall s, unesc s <> Panic) -> tiny_v2_with unesc n input <> Panic.
+Proof. exact tiny_v2_with_no_panic. Qed.
+Print Assumptions C16_no_panic_tiny_v2_for_total_unescape.
+
+(* tiny_v2_diff::read *)
+Theorem C16_no_panic_tiny_diff : forall input, tiny_diff_out input <> Panic.
+Proof. exact tiny_diff_no_panic. Qed.
+Print Assumptions C16_no_panic_tiny_diff.
+
+Theorem C16_no_panic_tiny_diff_for_total_unescape : forall unesc input,
+  (forall s, unesc s <> Panic) -> tiny_diff_with unesc input <> Panic.
+Proof. exact tiny_diff_with_no_panic. Qed.
+Print Assumptions C16_no_panic_tiny_diff_for_total_unescape.
+
+(* dukenest Nests::read *)
+Theorem C16_no_panic_nests : forall input, nests_out input <> Panic.
+Proof. exact nests_no_panic. Qed.
+Print Assumptions C16_no_panic_nests.
+
+(* enigma_file::read_into: never Panic; in particular never more than 68 frames of nested loops
+   (root + 65 CLASS sections + METHOD + ARG) whatever the input *)
+Theorem C16_no_panic_enigma : forall input, enigma_out input <> Panic.
+Proof. exact enigma_no_panic. Qed.
+Print Assumptions C16_no_panic_enigma.
+
+(* ... which depends on the nesting limit: without it the frames grow with the input *)
+Theorem C16_enigma_without_limit_grows : enigma_unrepaired_witnesses.
+Proof. exact enigma_unrepaired_witnesses_hold. Qed.
+Print Assumptions C16_enigma_without_limit_grows.
+
+(* unescape: iterating chars (what the code does; fuel = length + 1 suffices, more changes nothing)
+   is the same as reading the bytes of a String one by one; the result is a String, not longer *)
+Theorem C16_unescape_chars_is_bytewise : forall l, utf8_valid l = true -> unescape_b l = unescape_cp l.
+Proof. exact unescape_b_bytewise. Qed.
+Print Assumptions C16_unescape_chars_is_bytewise.
+
+Theorem C16_unescape_fuel_immaterial : forall l k, utf8_valid l = true -> unescape_chars (S (length l) + k) l = unescape_b l.
+Proof. exact unescape_fuel_immaterial. Qed.
+Print Assumptions C16_unescape_fuel_immaterial.
+
+Theorem C16_unescape_returns_string : forall l, utf8_valid l = true ->
+  utf8_valid (unescape_b l) = true /\ (length (unescape_b l) <= length l)%nat.
+Proof. exact unescape_b_is_string. Qed.
+Print Assumptions C16_unescape_returns_string.
+
+(* the model can express the crash of an unescape that slices bytes (backslash before a multi-byte
+   character), in isolation and through both readers; the same files are read fine by the code's unescape *)
+Theorem C16_sliced_unescape_panics : sliced_unescape_witnesses.
+Proof. exact sliced_unescape_witnesses_hold. Qed.
+Print Assumptions C16_sliced_unescape_panics.
+
+(* ------------------------------------------------------------------------------------------ *)
+(* The inventory of operations that can panic / allocate / loop / recurse, regenerated from the
+   sources on every run (coq/C16/SitesGen.v), is the one the model accounts for.                *)
+Theorem C16_text_panic_sites_match : map strip text_model = text_sites.
+Proof. exact text_sites_match. Qed.
+Print Assumptions C16_text_panic_sites_match.
+
+Theorem C16_writer_panic_sites_match : map strip writer_model = writer_sites.
+Proof. exact writer_sites_match. Qed.
+Print Assumptions C16_writer_panic_sites_match.
+
+(* the class writer's conversions: checked ones are an error, the unchecked ones sit under guards
+   that make them value preserving / overflow free *)
+Theorem C16_writer_checked_conversions_never_panic : forall max x,
+  try_from_max max x <> Panic /\ forall y, try_from_max max x = Done y -> y = x /\ y <= max.
+Proof. exact checked_conversion_never_panics. Qed.
+Print Assumptions C16_writer_checked_conversions_never_panic.
+
+Theorem C16_writer_index_as_u8_small : forall x, x < 4 -> as_u8 x = x.
+Proof. exact as_u8_small. Qed.
+Print Assumptions C16_writer_index_as_u8_small.
+
+Theorem C16_writer_short_load_store_fits : short_forms_ok = true.
+Proof. exact short_load_store_fits. Qed.
+Print Assumptions C16_writer_short_load_store_fits.
+
+Theorem C16_writer_frame_type_fits : forall k d, 1 <= k <= 3 -> d < 64 ->
+  as_u8 k = k /\ 251 + k <= 255 /\ k <= 251 /\ 248 <= 251 - k /\ 64 + d <= 127.
+Proof. exact frame_type_fits. Qed.
+Print Assumptions C16_writer_frame_type_fits.
+
+Theorem C16_writer_signed_offset_fits : forall t p, t <= 65535 -> p <= 65535 -> (i32_min <= Z.of_N t - Z.of_N p <= i32_max)%Z.
+Proof. exact signed_offset_fits. Qed.
+Print Assumptions C16_writer_signed_offset_fits.
+
+(* what the reader guarantees the writer: an accepted tableswitch spans at most 16383 values, so the
+   writer's `high - low + 1` on i32 does not overflow (the code array has at most 65535 bytes) *)
+Theorem C16_reader_tableswitch_span_small : forall cl p c1 c' e,
+  N.of_nat (length (rest c1)) <= 65535 ->
+  insn_operands tableswitch_count cl p 170 c1 = Done (c', e) ->
+  exists low high, tableswitch_bounds cl p c1 = Done (low, high)
+    /\ (low <= high)%Z /\ (1 <= high - low + 1 <= 16383)%Z /\ (i32_min <= high - low <= i32_max)%Z.
+Proof. exact reader_tableswitch_span. Qed.
+Print Assumptions C16_reader_tableswitch_span_small.
+
+(* ------------------------------------------------------------------------------------------ *)
+(* The element_value readers (three functions, five recursive calls; coq/C16/ModelEv.v) with the
+   nesting arguments, limit checks and limit as translate/c16_sites.py reads them from the source. *)
+Theorem C16_element_value_checks_as_modelled : ev_checks = checks_expected.
+Proof. exact ev_checks_as_modelled. Qed.
+Print Assumptions C16_element_value_checks_as_modelled.
+
+(* with the increments the source has now: every entry point, every element value, 3 * (limit + 3) + 3
+   frames suffice (204 for the limit 64) *)
+Theorem C16_element_value_depth_bounded : exists incs, incs_src = Some incs
+  /\ rank_ok incs (rank_of incs) = true
+  /\ forall f arg, ev_read incs ev_limit (ev_fuel ev_limit) f 0 arg <> Panic.
+Proof. exact ev_depth_bounded_src. Qed.
+Print Assumptions C16_element_value_depth_bounded.
+
+(* the general statement: bounded whenever the calls that do not increase `nesting` cannot form a cycle *)
+Theorem C16_element_value_depth_bounded_if_ranked : forall incs c limit, rank_ok incs c = true ->
+  forall f arg, ev_read incs limit (ev_fuel limit) f 0 arg <> Panic.
+Proof. exact ev_depth_bounded. Qed.
+Print Assumptions C16_element_value_depth_bounded_if_ranked.
+
+(* the bound depends on the increments of the annotation -> array -> annotation cycle: either one
+   may go (the cycle still counts once), both may not — then every stack is overflowed by some class *)
+Theorem C16_element_value_single_removal_bounded :
+  (forall f arg, ev_read incs_b3_first 64 (ev_fuel 64) f 0 arg <> Panic)
+  /\ (forall f arg, ev_read incs_b3_second 64 (ev_fuel 64) f 0 arg <> Panic).
+Proof. exact ev_single_removal_bounded. Qed.
+Print Assumptions C16_element_value_single_removal_bounded.
+
+Theorem C16_element_value_both_removed_unbounded : rank_ok incs_b3 (rank_of incs_b3) = false /\
+  forall fuel, exists v, ev_read incs_b3 64 fuel FNamed 0 [v] = Panic.
+Proof. exact ev_b3_unbounded. Qed.
+Print Assumptions C16_element_value_both_removed_unbounded.
+
+(* an element value that the reader accepts (increments as in the source: every container adds one)
+   nests at most 64 containers; so the class writer's recursion over it is bounded by the reader *)
+Theorem C16_accepted_element_values_are_shallow : forall fuel f arg v,
+  ev_read incs_expected 64 fuel f 0 arg = Done tt -> In v arg -> (ev_depth v <= 64)%nat.
+Proof. exact ev_accepted_depth. Qed.
+Print Assumptions C16_accepted_element_values_are_shallow.
+
+(* non-vacuity of the whole-parser theorems: the valid fixtures of the harness are accepted by their
+   parser (and refused, not crashed on, by the others) *)
+Theorem C16_text_fixtures_accepted : text_fixtures_accepted.
+Proof. exact text_fixtures_accepted_hold. Qed.
+Print Assumptions C16_text_fixtures_accepted.
+
+(* ------------------------------------------------------------------------------------------ *)
+(* The indentation machine of ModelText.v (a flat loop over the lines with a stack of frames) is the
+   nested-loop recursion of the Rust readers ([rd]: the loop of one section; a handler that starts a
+   sub-section runs the loop of that sub-section to its end, closes it, and goes on), for every
+   handler that rewrites its own frame and starts at most one sub-section per line — with fuel
+   (number of lines + 1) always sufficient, and with the same Fail / Panic outcomes.           *)
+Theorem C16_machine_is_nested_loops : forall (F St L : Type) limit (mk : bytes -> out (option L)) ind
+    (close : F -> St -> out St) handle bottom s ls,
+  handler_ok handle ->
+  run_lines limit mk ind close handle [bottom] s ls =
+  (let! (top', s', _) := rd (S (length ls)) limit mk ind close handle bottom [] s ls in close_all close [top'] s').
+Proof. intros F St L. exact (@rd_is_the_machine F St L). Qed.
+Print Assumptions C16_machine_is_nested_loops.
+
+Theorem C16_enigma_is_nested_loops : forall limit input,
+  enigma_with limit input =
+  (let! (top', s', _) := rd (S (length (raw_lines input))) (Some enigma_max_frames) enigma_line tl_ind enigma_close
+                            (enigma_handle limit) ETop [] [] (raw_lines input) in
+   let! _ := close_all enigma_close [top'] s' in Done tt).
+Proof. exact enigma_is_nested_loops. Qed.
+Print Assumptions C16_enigma_is_nested_loops.
+
+Theorem C16_tiny_v2_body_is_nested_loops : forall n unesc body,
+  run_lines None tiny_line tl_ind tiny_close (tiny_handle n unesc) [THeaderSub false; TTop] [] body =
+  (let! (h', s1, ls1) := rd (S (length body)) None tiny_line tl_ind tiny_close (tiny_handle n unesc) (THeaderSub false) [TTop] [] body in
+   let! s2 := tiny_close h' s1 in
+   let! (t', s3, _) := rd (S (length body)) None tiny_line tl_ind tiny_close (tiny_handle n unesc) TTop [] s2 ls1 in
+   close_all tiny_close [t'] s3).
+Proof. exact tiny_v2_body_is_nested_loops. Qed.
+Print Assumptions C16_tiny_v2_body_is_nested_loops.
+
+Theorem C16_tiny_diff_body_is_nested_loops : forall unesc body,
+  run_lines None tiny_line tl_ind diff_close (diff_handle unesc) [DTop] [] body =
+  (let! (top', s', _) := rd (S (length body)) None tiny_line tl_ind diff_close (diff_handle unesc) DTop [] [] body in
+   close_all diff_close [top'] s').
+Proof. exact tiny_diff_body_is_nested_loops. Qed.
+Print Assumptions C16_tiny_diff_body_is_nested_loops.
